@@ -39,7 +39,10 @@ def project(result_line, what):
 
 def scenarios_for(ctx, n_random, exhaustive=False):
     rng = random.Random(ctx.seed * 1000003 + 17)
-    scs = [eg.gen_random(rng) if rng.random() < 0.85 else eg.gen_chain(rng) for _ in range(n_random)]
+    def one():
+        r = rng.random()
+        return eg.gen_random(rng) if r < 0.75 else eg.gen_chain(rng) if r < 0.88 else eg.gen_diamond(rng)
+    scs = [one() for _ in range(n_random)]
     if exhaustive:
         scs += list(eg.gen_exhaustive_single(3, 2, True))
     return scs
